@@ -222,7 +222,12 @@ class ABCInterfaceClass(InterfaceClass):
         method = fromFunction(function, self, name=name)
         # Eliminate the leading *self*, which is implied in
         # an interface, but explicit in an ABC.
+        implied = method.positional[:1]
         method.positional = method.positional[1:]
+        if method.required[:1] == implied:
+            method.required = method.required[1:]
+        for name in implied:
+            method.optional.pop(name, None)
         return method
 
     def __register_classes(self, conformers=None, ignored_classes=None):
